@@ -3,14 +3,15 @@
 (* The part of a POSIX name space that xcp touches.                        *)
 (*                                                                         *)
 (* A file-system state is a SET OF ENTRIES                                  *)
-(*    [p |-> path, k |-> kind, c |-> content, lt |-> link text, h |-> id]  *)
+(*    [p, k |-> kind, c |-> content, lt |-> link text, h |-> id, g |-> gen]*)
 (* where a path is a sequence of names relative to the sandbox root <<>>   *)
 (* (always a directory), kind is one of dir file link fifo sock chr blk,   *)
 (* c is a content identifier for files (and the printable link text for    *)
 (* links, the device number for nodes), lt is the link text as a sequence  *)
 (* of components (first component "/ABS" = absolute, i.e. from the root),  *)
-(* and h > 0 names a hard-link group (entries with the same h are the same *)
-(* inode).                                                                 *)
+(* h > 0 names a hard-link group (entries with the same h are the same     *)
+(* inode), and g = 0 for an object that existed before the run, 1 for one  *)
+(* the run created (so "removed and recreated" differs from "untouched").  *)
 (***************************************************************************)
 EXTENDS Integers, Sequences, FiniteSets, TLC
 
@@ -19,7 +20,7 @@ Last(s)  == s[Len(s)]
 IsPrefix(a, b) == Len(a) <= Len(b) /\ SubSeq(b, 1, Len(a)) = a
 Strip(a, b) == SubSeq(b, Len(a) + 1, Len(b))            \* b without its prefix a
 
-RootEnt == [p |-> <<>>, k |-> "dir", c |-> "", lt |-> <<>>, h |-> 0]
+RootEnt == [p |-> <<>>, k |-> "dir", c |-> "", lt |-> <<>>, h |-> 0, g |-> 0]
 Has(fs, p)  == p = <<>> \/ \E e \in fs : e.p = p
 Ent(fs, p)  == IF p = <<>> THEN RootEnt ELSE CHOOSE e \in fs : e.p = p
 Kind(fs, p) == Ent(fs, p).k
@@ -83,7 +84,7 @@ Mkdir1(fs, path) ==
   LET ql == Resolve(fs, path, FALSE) IN
   IF IsErr(ql) THEN Fail(fs)
   ELSE IF Has(fs, ql) THEN (IF IsDirF(fs, path) THEN Ok(fs) ELSE Fail(fs))
-  ELSE Ok(Put(fs, [p |-> ql, k |-> "dir", c |-> "", lt |-> <<>>, h |-> 0]))
+  ELSE Ok(Put(fs, [p |-> ql, k |-> "dir", c |-> "", lt |-> <<>>, h |-> 0, g |-> 1]))
 
 RECURSIVE MkdirAll(_, _)
 MkdirAll(fs, path) ==                      \* std::fs::create_dir_all
@@ -102,17 +103,17 @@ CreateFile(fs, path, c) ==
                       \* every name of the same inode sees the new content
                       Ok({ IF (x.p = q \/ (old.h # 0 /\ x.h = old.h)) THEN [x EXCEPT !.c = c] ELSE x : x \in fs })
                  ELSE Fail(fs))
-  ELSE Ok(Put(fs, [p |-> q, k |-> "file", c |-> c, lt |-> <<>>, h |-> 0]))
+  ELSE Ok(Put(fs, [p |-> q, k |-> "file", c |-> c, lt |-> <<>>, h |-> 0, g |-> 1]))
 
 Symlink(fs, path, c, lt) ==
   LET q == Resolve(fs, path, FALSE) IN
   IF IsErr(q) \/ q = <<>> \/ Has(fs, q) THEN Fail(fs)
-  ELSE Ok(Put(fs, [p |-> q, k |-> "link", c |-> c, lt |-> lt, h |-> 0]))
+  ELSE Ok(Put(fs, [p |-> q, k |-> "link", c |-> c, lt |-> lt, h |-> 0, g |-> 1]))
 
 Mknod(fs, path, kind, c) ==
   LET q == Resolve(fs, path, FALSE) IN
   IF IsErr(q) \/ q = <<>> \/ Has(fs, q) THEN Fail(fs)
-  ELSE Ok(Put(fs, [p |-> q, k |-> kind, c |-> c, lt |-> <<>>, h |-> 0]))
+  ELSE Ok(Put(fs, [p |-> q, k |-> kind, c |-> c, lt |-> <<>>, h |-> 0, g |-> 1]))
 
 Unlink(fs, path) ==                        \* remove_file
   LET q == Resolve(fs, path, FALSE) IN
